@@ -455,6 +455,10 @@ def run_setting_a(scenario, prefix, setting, trace=False):
     cfg, script, _mon, kwargs, until = c01.factory(scenario)
     cfg = dict(cfg)
     cfg["qlog"], cfg["secrets"] = setting
+    if cfg.get("tickets") == "obtain":
+        # resumption: the first connection (logging off, default schedule) only provides the session
+        # ticket; the connection under test resumes it and writes early data before its first transmit
+        cfg["tickets"] = netsim.obtain_tickets({k: v for k, v in cfg.items() if k in ("version", "chain")})
     rec = Recorder()
     ch = explore.Chooser(prefix)
     w = netsim.NetSim(cfg, script, ch, monitors=[rec], trace=trace, **kwargs)
@@ -689,7 +693,12 @@ class Lane:
     def _apply(self, desc, fm):
         bot = self.bot
         try:
-            if desc[0] == "raw":
+            if desc[0] == "pnping":
+                # a PING under an explicit packet number (the peer skips numbers / repeats old ones)
+                bot.feed(bot.build(None, epoch=desc[1], payload=b"\x01", pn=desc[2], pn_len=4))
+            elif desc[0] == "timer":
+                bot.timer()
+            elif desc[0] == "raw":
                 if self.raw is None:
                     self.raw = c05.raw_menu(bot, self.tier)
                 label, data = self.raw[desc[1]]
@@ -820,6 +829,76 @@ def task_b(item):
     if lanes is not None:
         finish(lanes)
     res["viol"] = [tuple(v) + (tier,) for v in res["viol"]]  # the menu tier is needed to replay
+    return res
+
+
+# ------------------------------------------------------------------ B2: packet-number gaps
+def gaps_plan(next_pn, n):
+    """The peer uses every other packet number n times (n ACK ranges build up - more than one ACK
+    frame can carry once n > ~76), lets the ACK timer fire, then repeats packets from the oldest,
+    a middle and the newest range, fills one gap, and goes on."""
+    base = next_pn + 1
+    d = [("pnping", "1rtt", base + 2 * i, "PING_pn_base+%d" % (2 * i)) for i in range(n)]
+    d.append(("timer", "1rtt", 0, "timer"))
+    for off, nm in ((0, "oldest"), (2, "second_oldest"), (2 * (n // 2), "middle"), (2 * (n - 1), "newest")):
+        d.append(("pnping", "1rtt", base + off, "PING_repeat_%s_pn" % nm))
+    d.append(("pnping", "1rtt", base + 1, "PING_fill_first_gap"))
+    d.append(("timer", "1rtt", 0, "timer"))
+    d.append(("pnping", "1rtt", base + 2 * n, "PING_next_pn"))
+    d.append(("pnping", "1rtt", base, "PING_repeat_oldest_pn_again"))
+    d.append(("timer", "1rtt", 0, "timer"))
+    return d
+
+
+def task_gaps(item):
+    state, n, settings = item
+    settings = [tuple(x) for x in settings]
+    lanes = [Lane(state, st, "quick") for st in settings]
+    descs = gaps_plan(lanes[0].bot.next_pn, n)
+    res = {"inputs": 0, "lane_inputs": 0, "viol": [], "qlogs": 0, "classes": {}, "max_ranges_seen": 0}
+    chain = []
+    for desc in descs:
+        chain.append(desc)
+        outs = [ln.apply(desc, None) for ln in lanes]
+        res["inputs"] += 1
+        res["lane_inputs"] += len(lanes)
+        ref = outs[0]
+        res["classes"][ref[0]] = res["classes"].get(ref[0], 0) + 1
+        res["max_ranges_seen"] = max(res["max_ranges_seen"], len(lanes[0].bot.E.conn._spaces[tls.Epoch.ONE_RTT].ack_queue))
+        bad = False
+        for ln, o in zip(lanes[1:], outs[1:]):
+            if o == ref:
+                continue
+            bad = True
+            if o[0] == "EXC" and ref[0] != "EXC":
+                sig = {"monitor": "logging_only_exception", "exc": o[1], "where": o[3], "entry": o[2],
+                       "setting": _skind(ln.setting), "part": "peerbot"}
+                what = ("%s raised from %s (API %s) only with %s on input %s (after %d inputs building %d ACK ranges) "
+                        "in state %s: %s" % (o[1], o[3], o[2], sname(ln.setting), desc[-1], len(chain), n, state, o[4]))
+            else:
+                sig = {"monitor": "behaviour_differs", "field": "reaction", "part": "peerbot",
+                       "setting": _skind(ln.setting), "input": "gaps:" + desc[-1].split("+")[0]}
+                what = ("reaction to input %s (input %d of a peer that skipped %d packet numbers) in state %s differs "
+                        "with %s: %s" % (desc[-1], len(chain), n, state, sname(ln.setting), first_diff(ref, o, "reaction")))
+            res["viol"].append((sig, what, state, list(chain), list(ln.setting), "quick"))
+        if bad or ref[0] != "OK" or lanes[0].closed():
+            break
+    else:
+        ref = lanes[0].final()
+        for ln in lanes[1:]:
+            f = ln.final()
+            if f != ref:
+                res["viol"].append(({"monitor": "behaviour_differs", "field": "final_state", "part": "peerbot",
+                                     "setting": _skind(ln.setting)},
+                                    "final state differs with %s after the packet-number-gap chain (%d ranges) in state %s: %s"
+                                    % (sname(ln.setting), n, state, first_diff(ref, f, "final_state")),
+                                    state, list(chain), list(ln.setting), "quick"))
+        for ln in lanes:
+            if ln.setting[0]:
+                v = []
+                res["qlogs"] += check_qlog(ln.bot.w, v, "(state %s, packet-number-gap chain)" % state)
+                for sig, what in v:
+                    res["viol"].append((dict(sig, part="peerbot"), what, state, list(chain), list(ln.setting), "quick"))
     return res
 
 
@@ -1301,6 +1380,10 @@ def _run(ctx, batch):
         # special front-end scenarios: Retry and Version Negotiation packets are logged too
         for nm, cfg in (("retry", {"retry": True}), ("vn", {"vn": True}), ("retry_v2", {"retry": True, "version": c01.V2})):
             scen["echo/%s" % nm] = ({"ops": c01.SCRIPTS["echo"], "cfg": cfg}, True)
+        # resumption with early data: the 0-RTT keys are one more epoch the logs have to name
+        zr = {"c": [c01.W(0, 300, g="pre"), c01.W(0, 900, True, g="hs")], "s": [c01.W(0, 1500, True, g=("rx", 0, 1))]}
+        for nm, cfg in (("zero_rtt", {"tickets": "obtain"}), ("zero_rtt_v2", {"tickets": "obtain", "version": c01.V2})):
+            scen["resume/%s" % nm] = ({"ops": zr, "cfg": cfg}, not quick or nm == "zero_rtt")
         items = [(sid, sc, None if full else [[]]) for sid, (sc, full) in scen.items()]
         results = batch.get("a", task_a, items)
         if results is None:
@@ -1378,6 +1461,28 @@ def _run(ctx, batch):
         if not ctx.violations and len(classes) < 4:
             raise core.HarnessError("vacuous: part B produced %d reaction classes" % len(classes))
 
+    # ------------------------------------------------------------------ part B2
+    def part_gaps():
+        nonlocal outcomes_total
+        ns = (3, 100) if quick else (3, 40, 76, 77, 78, 100, 180)
+        items = [(st, n, list(SETTINGS)) for st in ("server_connected", "client_connected") for n in ns]
+        results = batch.get("gaps", task_gaps, items)
+        if results is None:
+            return
+        viol = []
+        for r in results:
+            viol += r["viol"]
+        _report(ctx, viol, lambda v: {"part": "peerbot", "state": v[2], "tier": v[5],
+                                      "inputs": [list(d) for d in v[3]], "setting": v[4]})
+        mx = max(r["max_ranges_seen"] for r in results)
+        if mx < 90:
+            raise core.HarnessError("gaps: only %d ACK ranges were built" % mx)
+        ctx.part("peerbot_pn_gaps", chains=len(items), inputs=sum(r["inputs"] for r in results),
+                 evaluations=sum(r["lane_inputs"] for r in results), transitions=sum(r["inputs"] for r in results),
+                 ranges_per_chain=list(ns), max_ack_ranges_held=mx,
+                 qlog_documents_checked=sum(r["qlogs"] for r in results), distinct_nontrivial=len(ns),
+                 violations_raw=len(viol))
+
     # ------------------------------------------------------------------ part C
     def part_c():
         nonlocal outcomes_total
@@ -1442,6 +1547,8 @@ def _run(ctx, batch):
         part_a()
     if not only or "peerbot" in only:
         part_b()
+    if not only or "peerbot" in only or "gaps" in only:
+        part_gaps()
     def part_cblocked():
         nonlocal outcomes_total
         from checks import c14
